@@ -2,7 +2,7 @@
    Go function and what it returned (result kind 0 ok / 1 err / 2 panic, and all integers on success);
    [mismatches] lists the ids of the cases on which the model computes anything different. *)
 From Coq Require Import ZArith List Bool.
-From Elys Require Import Base.Res Base.Zdec Models.AmmJoinExit.
+From Elys Require Import Base.Res Base.Zdec Models.AmmSwap Models.WeightFee Models.AmmJoinExit Models.WeightFeeJoinExit.
 Import ListNotations.
 Open Scope Z_scope.
 
@@ -22,7 +22,13 @@ Inductive ccase :=
          (k tv shares : Z) (R' : list Z) (Sn : Z)
 | COExit (id : Z) (R : list Z) (Sh sh : Z) (d : nat) (acc prices weights : list Z) (wbf : Z)
          (k out : Z) (R' : list Z) (Sn : Z)
-| CSingle (id : Z) (B w tw a fee Sh pw : Z) (y wn shares : Z).
+| CSingle (id : Z) (B w tw a fee Sh pw : Z) (y wn shares : Z)
+(* the same two oracle operations with the weight-breaking fee COMPUTED by Models/WeightFee.v from the params
+   (multiplier, exponent, portion, threshold); [bonus] = the weightBalanceBonus the Go function returned *)
+| COJoinW (id : Z) (R : list Z) (Sh : Z) (d : nat) (amt : Z) (acc prices weights : list Z) (mu ex po th : Z)
+          (k shares bonus : Z) (R' : list Z) (Sn : Z)
+| COExitW (id : Z) (R : list Z) (Sh sh : Z) (d : nat) (acc prices weights : list Z) (mu ex po th : Z)
+          (k out bonus : Z) (R' : list Z) (Sn : Z).
 
 Definition check (c : ccase) : Z * bool :=
   match c with
@@ -60,6 +66,16 @@ Definition check (c : ccase) : Z * bool :=
            end)
   | CSingle id B w tw a fee Sh pw y wn shares =>
       (id, (single_join_wn w tw =? wn) && (single_join_y B w tw a fee =? y) && (single_join_shares Sh pw =? shares))
+  | COJoinW id R Sh d amt acc prices weights mu ex po th k shares bonus R' Sn =>
+      (id, match join_oracle_wf R Sh d amt acc prices weights (mkWP mu ex po th) with
+           | Ok (sh, RR, SS, bb) => (k =? 0) && (sh =? shares) && (bb =? bonus) && zl_eqb RR R' && (SS =? Sn)
+           | r => kind r =? k
+           end)
+  | COExitW id R Sh sh d acc prices weights mu ex po th k out bonus R' Sn =>
+      (id, match exit_oracle_wf R Sh sh d acc prices weights (mkWP mu ex po th) with
+           | Ok (oo, RR, SS, bb) => (k =? 0) && (oo =? out) && (bb =? bonus) && zl_eqb RR R' && (SS =? Sn)
+           | r => kind r =? k
+           end)
   end.
 
 Definition mismatches (cs : list ccase) : list Z :=
